@@ -431,16 +431,36 @@ fn c08_judge(prog: &Prog, out: &ConcOut) -> Result<(bool, Vec<(&'static str, u64
 pub const C08: ConcCheck = ConcCheck { asked: "C08", sub: "rmw", mix: Mix::Compute, max_threads: 3, max_ops: 3, opts: C01.opts, judge: c08_judge, mk_probe: NO_PROBE };
 
 pub const C08T: ConcCheck = ConcCheck { sub: "rmw-treemove", mix: Mix::TreeMove, ..C08 };
+/// the same oracle (closure ran at most once per call, per-key linearizability of the
+/// read-modify-write, counter sum) where the updated node is being migrated: by several helpers,
+/// by one resizer among removals and bulk removals, and in long random-tape histories
+pub const C08H: ConcCheck = ConcCheck { sub: "rmw-helpers", mix: Mix::Helpers, max_threads: 4, ..C08 };
+pub const C08Z: ConcCheck = ConcCheck { sub: "rmw-resize", mix: Mix::Resize, ..C08 };
+pub const C08M: ConcCheck = ConcCheck { sub: "rmw-long-mixed", mix: Mix::LongMixed, max_threads: 6, max_ops: 10, ..C08 };
+const C08_LONG: Budget = Budget { single: 0, double: 0, coarse2: 0, tapes: 200, tape_seed: 1, triple: 0 };
 fn c08_shard(ctx: &Ctx, out: &mut ShardOut) {
     let pool = Pool::new();
     let n = ctx.share(ctx.by_tier(1500, 20_000)) as u32;
     C08.run(ctx, &pool, 8, n, &budget_for(ctx.tier, ctx.shard_seed(78)), out);
     C08T.run(ctx, &pool, 9, ctx.share(ctx.by_tier(320, 5_000)) as u32, &budget_for(ctx.tier, ctx.shard_seed(79)), out);
+    C08H.run(ctx, &pool, 10, ctx.share(ctx.by_tier(160, 3_000)) as u32, &helpers_budget(ctx.tier, ctx.shard_seed(80)), out);
+    C08Z.run(ctx, &pool, 11, ctx.share(ctx.by_tier(240, 4_000)) as u32, &budget_for(ctx.tier, ctx.shard_seed(81)), out);
+    let lb = Budget { tapes: ctx.by_tier(24, 200) as usize, tape_seed: ctx.shard_seed(82), ..C08_LONG };
+    C08M.run(ctx, &pool, 12, ctx.share(ctx.by_tier(160, 5_000)) as u32, &lb, out);
 }
 fn c08_replay(sub: &str, case: &Value) -> Result<(), CaseFail> {
     let pool = Pool::new();
     if sub == "rmw-treemove" {
         return C08T.replay(&pool, case, &budget_for(Tier::Thorough, 1));
+    }
+    if sub == "rmw-helpers" {
+        return C08H.replay(&pool, case, &helpers_budget(Tier::Thorough, 1));
+    }
+    if sub == "rmw-resize" {
+        return C08Z.replay(&pool, case, &budget_for(Tier::Thorough, 1));
+    }
+    if sub == "rmw-long-mixed" {
+        return C08M.replay(&pool, case, &C08_LONG);
     }
     C08.replay(&pool, case, &budget_for(Tier::Thorough, 1))
 }
